@@ -9,6 +9,8 @@ use super::out::{self, esc};
 use super::rng::Rng;
 use super::session::{Engine, Src};
 
+static MINIMISATIONS: AtomicUsize = AtomicUsize::new(0);
+
 pub const START_FEN: &str = "rnbqkbnr/pppppppp/8/8/8/8/PPPPPPPP/RNBQKBNR w KQkq - 0 1";
 const READY_TIMEOUT_MS: u64 = 8_000;
 const EXIT_TIMEOUT_MS: u64 = 3_000;
@@ -1374,7 +1376,14 @@ fn c15_session(ctx: &Ctx, idx: usize, seeds: &[String]) {
             let stderr = e.stderr_lines(from);
             // reproduce alone, then minimise token-wise; the witness is the minimal line
             let alone = kills_alone(ctx, &line);
-            let (min_line, how) = if alone.is_some() { (minimise(ctx, &line), "alone in a fresh process") } else { (line.clone(), "only within this session") };
+            let budget_left = MINIMISATIONS.fetch_add(1, Ordering::Relaxed) < 8;
+            let (min_line, how) = if alone.is_some() && budget_left {
+                (minimise(ctx, &line), "alone in a fresh process")
+            } else if alone.is_some() {
+                (line.clone(), "alone in a fresh process, not minimised")
+            } else {
+                (line.clone(), "only within this session")
+            };
             let panic_line = stderr.iter().find(|s| s.contains("panicked")).cloned().unwrap_or_default();
             out::violation(
                 "C15",
